@@ -50,6 +50,52 @@ func buildIntrinsics() map[string]Intrinsic {
 		return val(nil)
 	}
 	m[hp+"verifLocksFree"] = inLocksFree
+	m[hp+"verifSpawn"] = func(e *Exec, st *State, ci *CallInfo) Outcome {
+		var old []Value
+		if t, ok := st.extra["threads"].(*TupleV); ok {
+			old = t.E
+		}
+		st.extra["threads"] = &TupleV{E: append(append([]Value{}, old...), ci.Args[0])}
+		return val(nil)
+	}
+	m[hp+"verifRunThreads"] = func(e *Exec, st *State, ci *CallInfo) Outcome {
+		raceMsg := mustConc(ci.Args[0], "race message")
+		stuckMsg := mustConc(ci.Args[1], "stuck message")
+		var bodies []*Closure
+		if t, ok := st.extra["threads"].(*TupleV); ok {
+			for _, v := range t.E {
+				bodies = append(bodies, v.(*Closure))
+			}
+		}
+		delete(st.extra, "threads")
+		trs := e.runThreads(st, bodies)
+		for ti, tr := range trs {
+			e.Res.Notes[fmt.Sprintf("event paths of thread %d", ti)] += len(tr.paths)
+			for _, p := range tr.paths {
+				if p.End != EndReturn {
+					e.Res.Inconclusive = append(e.Res.Inconclusive, fmt.Sprintf("thread %d ended with %s while recording", ti, p.End))
+				}
+			}
+		}
+		for _, f := range e.analyseThreads(st, trs, raceMsg != "", stuckMsg != "") {
+			msg := raceMsg
+			if f.Kind == "stuck" {
+				msg = stuckMsg
+			}
+			in := e.InputsUnder(st, e.pathModel(st))
+			in["__finding"] = f.Desc
+			in["__schedule"] = f.Schedule
+			known := ""
+			for _, k := range st.Known {
+				if k.Cond.IsTrue() && (strings.HasPrefix(k.ID, f.Kind) || !strings.Contains(k.ID, ":")) {
+					known = k.ID
+				}
+			}
+			e.Res.Violations = append(e.Res.Violations, Violation{Msg: msg, Known: known, Inputs: in, PathTag: f.Kind})
+		}
+		st.Covers = append(st.Covers, "threads-analysed")
+		return val(nil)
+	}
 	m[hp+"verifFingerprint"] = func(e *Exec, st *State, ci *CallInfo) Outcome { return val(e.ConcStr("")) }
 	m[hp+"verifConcreteInt"] = inConcreteInt
 	m[hp+"vAnd"] = func(e *Exec, st *State, ci *CallInfo) Outcome {
